@@ -256,6 +256,15 @@ def run_program(job):
             stats["wf_checks"] += st.n_wf_checks
             for w in st.wf_errors[:5]:
                 res["findings"].append(dict(w, kind="ill-formed", level=level, config=cfg.name))
+            # IRLiteral(True/False) printed as such (not re-parsable): reported once per program
+            if not any(f["kind"] == "bool-literal" for f in res["findings"]):
+                for s in st.snaps:
+                    if s["changed"] and s["fn"] != "<ctx>" and H.has_bool_literal(s["after"]) and not H.has_bool_literal(s["before"]):
+                        status, detail = H.parse_roundtrip(s["after"], normalize_bool=False)
+                        line = next((l.strip() for l in s["after"].splitlines() if H.has_bool_literal(l)), "")
+                        res["findings"].append({"kind": "bool-literal", "level": level, "config": cfg.name, "pass": s["pass"], "fn": s["fn"],
+                                                "idx": s["idx"], "status": status, "detail": detail, "line": line, "text": s["after"][:3000]})
+                        break
             # print/parse round trip on changed snapshots
             budget = job.get("roundtrip_budget", 10 ** 9)
             for s in st.snaps:
